@@ -627,7 +627,9 @@ def writer_values(quick):
     hi = 130 if quick else 600
     maxj = 64 if quick else 200
     big = sorted(set(x for j in range(7, maxj + 1) for x in ((1 << j) - 1, (1 << j), (1 << j) - 2)))
-    big = [x for x in big if x > hi]
+    # far beyond any machine word (every tier): the codes are hundreds / thousands of bits long
+    big += [x for j in (127, 128, 255, 256, 257, 300, 511, 512, 1000, 4096) for x in ((1 << j) - 2, (1 << j) - 1, 1 << j)]
+    big = sorted(set(x for x in big if x > hi))
     for v in list(range(-2, hi + 1)) + big:
         ops.append(("uint", v))
     for v in list(range(-hi, hi + 1)) + big + [-x for x in big]:
